@@ -198,6 +198,7 @@ fn c04_op_strategy() -> BoxedStrategy<Op> {
         1 => (0u8..2, prop_oneof![Just(0u8), Just(1), Just(126), Just(127), 0u8..=127]).prop_map(|(side, reason_len)| Op::Disconnect { side, reason_len }),
         1 => Just(Op::Reset),
         1 => Just(Op::Connect),
+        1 => (0u8..2, prop::bool::weighted(0.35)).prop_map(|(side, on)| Op::FailSends { side, on }),
     ]
     .boxed()
 }
